@@ -3,7 +3,7 @@
 import json, os
 
 IMPLEMENTED = os.environ.get("VERIF_IMPLEMENTED", "").split() or [
-    "C01", "C02", "C03", "C04", "C05", "C06", "C08", "C10", "C11", "C12", "C13", "C14", "C15", "C16", "C20",
+    "C01", "C02", "C03", "C04", "C05", "C06", "C08", "C10", "C07", "C09", "C11", "C12", "C13", "C14", "C15", "C16", "C17", "C19", "C20",
 ]
 
 ENGINE = {
@@ -62,12 +62,32 @@ CHECKS = {
             "gateway and VLAN equal to the pool's input configuration.",
             "runtime monitoring: differential check of filter/bind results against an independent topology model",
             "3 (C06)", SIM_NOTE),
+    "C07": ("exploration",
+            "Race-built real plugin with its Run() loop workers: one goroutine per pod runs filter->bind for deployments sharing "
+            "a sized pool while an administrator goroutine changes the size / pre-allocates through the real HTTP API and a churn "
+            "goroutine deletes bound pods; yields are injected at every API call of galaxy. An observer counts the IPs held under "
+            "the pool after every operation and continuously; growth beyond the largest size any in-flight or just-returned "
+            "allocating call could have seen is a violation (weakest reading of 'size in force').",
+            "runtime monitoring: online invariant monitor under concurrency stress with injected yields (+ race detector)",
+            "3 (C07)", "Trusted: fake API server, event pump; the bound is the largest size visible (truth or lister) to any call "
+            "in flight since the previous observation, so an alarm is a genuine over-allocation. Statefulset/bare pods with a pool "
+            "annotation are not capped by the anchored code path and are not judged."),
     "C08": ("fault_enumeration",
             "Pods with 1-3 pairwise-disjoint requested range lists (spanning pools, partly exhausted, partly pre-owned); "
             "successful binds must carry k distinct IPs, i-th in i-th range, in order; failed binds and empty filters must leave "
             "dump and store exactly as before; every FloatingIP create/delete call index of explored binds is failed.",
             "runtime monitoring with per-call fault injection on multi-IP binds",
             "3 (C08)", SIM_NOTE),
+    "C09": ("exploration",
+            "Concurrent rounds: 4-7 workers create/schedule/delete pods while a reloader applies 3-5 mutated configurations "
+            "through the real updateConfigMap (a delay is injected right after the reload's store list) and an administrator "
+            "reserves/unreserves addresses with labelled FloatingIP objects whose watch events are pumped with lag. At a barrier "
+            "(workers joined, pump drained, loop workers quiescent, two identical observations with no API call in between): memory "
+            "and store agree on every configured IP, no allocation made during a reload is lost, no admin-reserved or de-configured "
+            "IP is allocated, de-configured objects are gone. The sequential reload/reservation clauses are also checked by ipamsim "
+            "histories (alarms counted there).",
+            "runtime monitoring: barrier-time state comparison after concurrent reload/reserve/allocate rounds with widened windows",
+            "3 (C09)", "Trusted: fake API server, event pump, barrier detection (API-call counter stable)."),
     "C10": ("exploration",
             "A recording cloud provider's call log is replayed through a per-IP state machine after every step: no assign to a "
             "second node while assigned, every live bound pod's IPs assigned to its node, no owner change while assigned; "
@@ -123,6 +143,23 @@ CHECKS = {
             "policy shapes; every mismatch is classified by the policy shape that explains it.",
             "runtime monitoring: differential verdict comparison packet-walk vs reference evaluator over generated flows",
             "3 (C16)", "Trusted: the reference evaluator (cmd/polsim/ref.go), the walker's iptables/ipset semantics, the fakes."),
+    "C17": ("exploration",
+            "The real flannel GC (NewFlannelGC(...).Run(), 20 ms interval) over generated directory populations with a fake Docker "
+            "Engine API on a unix socket and, in a second mode, a fake CRI PodSandboxStatus gRPC server; answers are scripted per "
+            "container (running/created/paused/exited/dead/404/500/garbage/reset/slow; READY/NOTREADY/NotFound/Unavailable + pod "
+            "lookup). Safety: nothing of a container is removed and no clean-port callback fires before a 'dead' answer was served "
+            "for it, nothing is removed during runtime outages, non-container files stay. Bounded liveness in GC passes (counted by "
+            "sentinel inspects), not time.",
+            "runtime monitoring: event-order monitor (inspect log vs deletions/callbacks) with scripted runtime faults",
+            "3 (C17)", "Trusted: the fake runtimes; cleanupVeth (netlink) is not monitored."),
+    "C19": ("exploration",
+            "Go race detector over child processes running: every galaxy-ipam entry point concurrently on one plugin instance (mix), "
+            "sized-pool and reload rounds, bare IPAM stress with a linearizability-checked history, and the race-built cnisim "
+            "(concurrent /cni ADD/DEL over shared network configs) and polsim (policy syncs and events, per-pod goroutines) engines; "
+            "reports are de-duplicated by the innermost galaxy frames of both stacks; fatal 'concurrent map' errors are violations.",
+            "runtime monitoring: Go race detector over concurrency stress workloads",
+            "3 (C19)", "Only races on executed, overlapping paths are seen; no static lock-discipline analysis. Harness fakes are "
+            "goroutine-safe; a report with both stacks in harness code marks the run broken."),
     "C20": ("exploration",
             "Grammar-based configurations (valid and one mutation away, boundary addresses) decoded by the real code and by an "
             "independent parser into an integer-set model; laws: ranges inside subnet, sorted/disjoint/unmergeable, Size == "
